@@ -199,7 +199,8 @@ def decoded_text(data: bytes):
     """The decoded text with the file's own line ends (newline=''): the model splits it into lines itself (Bandit/Lines.lean `uniLines`)."""
     try:
         enc, _ = tokenize.detect_encoding(io.BytesIO(data).readline)
-        return io.TextIOWrapper(io.BytesIO(data), encoding=enc, newline="").read()
+        # errors="replace" like trojansource itself (since /repo fix: bytes the encoding cannot decode are accepted by the parser inside a comment)
+        return io.TextIOWrapper(io.BytesIO(data), encoding=enc, newline="", errors="replace").read()
     except Exception:
         return None
 
